@@ -471,7 +471,10 @@ Inductive attr_restore :=
                                      that holds only the listed arguments; the others take their defaults *)
 | AMissing.                       (* not restored at all: the unpickled object lacks the attribute *)
 
-Record hook_row := mkHook { hk_class : string; hk_attrs : list (string * attr_restore) }.
+(* hk_deepcopy: the class has a __deepcopy__ of its own.  Without one, copy.deepcopy goes through the SAME hooks
+   (__reduce_ex__), so every deep copy -- the sequential path and the threaded schedulers included -- is restored by
+   them too; with one, only pickling is *)
+Record hook_row := mkHook { hk_class : string; hk_deepcopy : bool; hk_attrs : list (string * attr_restore) }.
 
 (* a model function as far as one run can tell: which probe instance it is (an ARGUMENT of the model: the default is
    instance 0) and whether it is switched on *)
@@ -532,17 +535,26 @@ Fixpoint models_restore (hooks : list hook_row) : attr_restore :=
 
 Definition hooks_survive (hooks : list hook_row) : bool :=
   forallb (fun h => forallb (fun ar => attr_survives (snd ar)) (hk_attrs h)) hooks.
-(* every attribute of every hooked class comes back as it was, the models of a group included *)
-Definition hooks_faithful (hooks : list hook_row) : bool :=
-  forallb (fun h => forallb (fun ar => attr_faithful (snd ar)) (hk_attrs h)) hooks
-  && models_faithful (models_restore hooks).
 
-(* the models of the pipeline a task works on.  pickled = the task went through dask's process-pool serialisation (or
-   the caller's objects went through pickle before).  None = an object lacks an attribute / a constructor refuses:
-   the run raises *)
+(* every attribute of a hooked class comes back as it was, the models of a group included *)
+Definition row_faithful (h : hook_row) : bool :=
+  forallb (fun ar => attr_faithful (snd ar)) (hk_attrs h)
+  && (if String.eqb (hk_class h) "ModelGroup"%string
+      then models_faithful (match lookup_attr "models"%string (hk_attrs h) with Some r => r | None => AMissing end)
+      else true).
+Definition hooks_faithful (hooks : list hook_row) : bool := forallb row_faithful hooks.
+
+(* the hooks a transport goes through: pickling -- all of them; a deep copy -- those of the classes without a
+   __deepcopy__ of their own *)
+Definition hooks_applied (hooks : list hook_row) (pickled : bool) : list hook_row :=
+  if pickled then hooks else filter (fun h => negb (hk_deepcopy h)) hooks.
+
+(* the models of the pipeline a run works on.  pickled = the task went through dask's process-pool serialisation (or
+   the caller's objects went through pickle before); otherwise the run works on a deep copy (sequential path,
+   synchronous and threaded schedulers).  None = an object lacks an attribute / a constructor refuses: the run raises *)
 Definition worker_models (hooks : list hook_row) (pickled : bool) (ms : list minst) : option (list minst) :=
-  if negb pickled then Some ms
-  else if hooks_survive hooks then restore_models (models_restore hooks) ms else None.
+  let hs := hooks_applied hooks pickled in
+  if hooks_survive hs then restore_models (models_restore hs) ms else None.
 
 (* an object as an attribute store, and what a hook-driven round trip keeps of it *)
 Definition unpickle_obj {V} (restored : list string) (o : list (string * V)) : list (string * V) :=
@@ -625,16 +637,17 @@ Definition case_violates (c : par_case) : bool :=
 
 (* the traces the model predicts: of the sequential path (the caller's pipeline) and of the parallel path (what the
    worker receives); None in the second component = the run on the worker's copy raises *)
-Definition seq_trace (c : par_case) : option (list Z * option (list Z)) :=
-  match pc_pipe c with None => None | Some (ms, _, st) => Some (executed ms, st) end.
-(* the detector has no pickle hook of its own: when every hooked class survives the round trip, the worker's detector
-   carries the caller's settings *)
-Definition dask_trace (hooks : list hook_row) (c : par_case) : option (option (list Z * option (list Z))) :=
+Definition trace_of (hooks : list hook_row) (pk : bool) (c : par_case) : option (option (list Z * option (list Z))) :=
   match pc_pipe c with
   | None => Some None
-  | Some (ms, pk, st) =>
+  | Some (ms, _, st) =>
       match worker_models hooks pk ms with None => None | Some ms' => Some (Some (executed ms', st)) end
   end.
+(* the sequential path works on deep copies; the parallel path on deep copies of what the worker receives.  The
+   detector classes have no hook: when every hooked class survives, the run sees the caller's settings *)
+Definition seq_trace (hooks : list hook_row) (c : par_case) := trace_of hooks false c.
+Definition dask_trace (hooks : list hook_row) (c : par_case) :=
+  trace_of hooks (match pc_pipe c with Some (_, pk, _) => pk | None => false end) c.
 
 Definition case_mismatch_cfg (cf : dask_cfg) (hooks : list hook_row) (c : par_case) : bool :=
   if negb (pc_model c) then false else
@@ -647,9 +660,10 @@ Definition case_mismatch_cfg (cf : dask_cfg) (hooks : list hook_row) (c : par_ca
      | _, _, _ => false
      end
      &&
-     match pc_seq c with
-     | None => true
-     | Some cs => same_cells (map (model_cell_x (seq_trace c)) (seq_params (pc_mode c))) cs
+     match pc_seq c, seq_trace hooks c with
+     | None, _ => true
+     | Some cs, Some tr => same_cells (map (model_cell_x tr) (seq_params (pc_mode c))) cs
+     | Some _, None => false
      end).
 
 Fixpoint indices_where {A} (p : A -> bool) (l : list A) (k : Z) : list Z :=
